@@ -36,9 +36,17 @@
          is one; preserved by runs ([einv_run]).
     - 5. the history property [hp] (clauses 1/2, 3, and the pending form of 4),
          the loop ([linvE], [iter_linvE], [loop_finE]).
-    - 6. the theorems, the readable corollary ([replay_flag_true_all]: the flag of
-         the replay is the conjunction over the list of contributing actions
-         [replayC]), the refutation of the literal statement, non-vacuity. *)
+    - 6. the theorems ([bypass_all_replay_run] for the instrumented loop,
+         [bypass_all_replay_partial] and [bypass_all_replay_history_partial] for
+         [sim_advanced] on parsed traces, [bypass_all_replay_stated_no_zero_replace]);
+         the readable corollary ([replay_flag_true_all], [replay_flag_all]: the flag
+         of the replay is the conjunction over the list of contributing actions
+         [replayC]; [replayC_sound]: each contributor caused a BlockingBegin of that
+         side reported since its last BlockingEnd).
+    - 7. concrete runs evaluated inside Coq: the refutation of the literal statement
+         ([stated_target_refuted]), non-vacuity of clause (2) with two contributors
+         ([bypass_all_case2_two_contributors]) and of clause (3)
+         ([bypass_all_case3_one_step_ahead]). *)
 From Coq Require Import List Arith Lia Permutation ZArith Bool Sorted.
 From MB Require Import Base.Prelude Model.Framework Model.Sim Proofs.Tactics Proofs.SimHeap.
 From MB Require Import Proofs.SimBasics Proofs.SimReach Proofs.SimHistory Proofs.SimActionTrace.
@@ -754,3 +762,973 @@ Proof.
     + eapply einvR_leave_queue; try eassumption. apply complb_not_bend. exact He.
     + intros X x j _ _ _ [Hend _]. apply (complb_not_bend _ He). exact Hend.
 Qed.
+
+(** * 5. The history property and the loop *)
+
+(** (3): one BlockingBegin of side [X] fired in the instant of the release [k] and is reported later
+    (at [j]); the release is judged by the replay including that report, which is one
+    [replay_begin_r] step (with THE action that caused [j]) from the replay at [k] *)
+Definition c3 (X : bool) (f : nat -> nat) (H : list hrec) (k : nat) (rk : hrec) : Prop :=
+  exists j rj m, (k < j)%nat /\ nth_error H j = Some rj /\ se_ev (h_ev rj) = TEBlockingBegin m /\
+    se_client (h_ev rj) = X /\ se_time (h_ev rj) = se_time (h_ev rk) /\
+    (forall i ri, (k < i < j)%nat -> nth_error H i = Some ri -> se_client (h_ev ri) = X ->
+       is_complb (h_ev ri) = false) /\
+    (exists a, act_of H (f j) m = Some a /\
+       replayX X f H (S j) = replay_begin_r (replayX X f H k) (se_time (h_ev rk)) a) /\
+    judged (replayX X f H (S j)) (h_ev rk).
+
+(** (4): the run was cut within the instant of the release, a completion of side [X] may still be pending *)
+Definition c4 (X : bool) (H : list hrec) (k : nat) (rk : hrec) : Prop :=
+  forall i ri, (k < i)%nat -> nth_error H i = Some ri ->
+    se_time (h_ev ri) = se_time (h_ev rk) /\ (se_client (h_ev ri) = X -> is_complb (h_ev ri) = false).
+
+(** (4) while the run goes on: the BlockingBegin [x] of side [X] is still queued; the release was judged
+    by the replay at [k] extended with it *)
+Definition c4p (X : bool) (f : nat -> nat) (H : list hrec) (G : bool -> list (sev * nat)) (k : nat) (rk : hrec) : Prop :=
+  exists x j a, G X = [(x, j)] /\ is_beginb x = true /\ act_of H j (cmach x) = Some a /\
+    se_time x = se_time (h_ev rk) /\
+    (forall i ri, (k < i)%nat -> nth_error H i = Some ri ->
+       se_time (h_ev ri) = se_time (h_ev rk) /\
+       (se_client (h_ev ri) = X -> is_complb (h_ev ri) = false /\ se_ev (h_ev ri) <> TEBlockingEnd)) /\
+    judged (replay_begin_r (replayX X f H k) (se_time x) a) (h_ev rk).
+
+Definition hp (H : list hrec) (f : nat -> nat) (G : bool -> list (sev * nat)) : Prop :=
+  forall k rk, nth_error H k = Some rk -> se_ev (h_ev rk) = TETunnelSent ->
+    judged (replayX (se_client (h_ev rk)) f H k) (h_ev rk) \/
+    c3 (se_client (h_ev rk)) f H k rk \/ c4p (se_client (h_ev rk)) f H G k rk.
+
+Record linvE (H : list hrec) (st : sim) (t : Z) (f : nat -> nat) (G : bool -> list (sev * nat)) : Prop := mk_linvE {
+  le_sq : SimBlocking.sq_inv (m_sq st);
+  le_hp : hpi (m_sq st);
+  le_qge : qge st t;
+  le_t : tinv H st t f G noex;
+  le_u : huniq H;
+  le_e : einvR false (Rf H f) H st G;
+  le_h : hp H f G
+}.
+
+Lemma einvR_weaken : forall R H st G, einvR false R H st G -> einvR true R H st G.
+Proof.
+  intros R H st G [H1 H2 H3|X x j H1 H2 H3 H4]; [apply einv0; assumption|].
+  apply (einv1 _ _ _ _ _ X x j H1 H2 H3).
+  destruct H4 as [L|[B [P|[M _]]]]; [left; exact L|right; split; [exact B|left; exact P]|discriminate].
+Qed.
+
+Lemma einvR_transfer : forall R R' H r st st3 (G G' : bool -> list (sev * nat)),
+  (forall Y, R' Y = R Y) -> (forall Y, G' Y = G Y) -> same_d st st3 ->
+  (forall Y x j, In (x, j) (G Y) -> (j < length H)%nat) ->
+  einvR false R H st G -> einvR false R' (H ++ [r]) st3 G'.
+Proof.
+  intros R R' H r st st3 G G' HR HG Hd Hj [H1 H2 H3|X x j H1 H2 H3 H4].
+  - apply einv0; rewrite ?HG; auto. intros X. rewrite Hd, HR. apply H3.
+  - apply (einv1 _ _ _ _ _ X x j); rewrite ?HG; auto.
+    + rewrite Hd, HR. exact H3.
+    + destruct H4 as [[B Ex]|[B [(a & A1 & A2 & A3)|[M _]]]]; [|right; split; [exact B|left]|discriminate].
+      * left. split; [exact B|]. rewrite Hd, HR. exact Ex.
+      * exists a. split; [|rewrite !Hd, HR; auto].
+        rewrite act_of_snoc; [exact A1|]. apply (Hj X x j). rewrite H1. left. reflexivity.
+Qed.
+
+Lemma rstep_Rp : forall {D} (rb : option D -> Z -> taction -> option D) Y f H i r b,
+  is_complb (h_ev r) = false ->
+  rstep rb Y f H i r b = if is_bendb Y (h_ev r) then None else b.
+Proof.
+  intros D rb Y f H i r b Hc. rewrite rstep_noncompl by exact Hc. unfold is_bendb.
+  destruct (Bool.eqb _ Y); destruct (se_ev (h_ev r)); reflexivity.
+Qed.
+
+Lemma judged_of_leak : forall sd e,
+  s_buntil sd = None \/ (s_bbypass sd = true /\ se_bypass e = true) -> judged (dside sd) e.
+Proof.
+  intros sd e [E|[E1 E2]]; unfold judged, dside.
+  - rewrite E. left. reflexivity.
+  - destruct (s_buntil sd) as [u|]; [right; exists u; rewrite E1; auto|left; reflexivity].
+Qed.
+
+Lemma sub_nil : forall {A} (l : list A), (forall p, In p l -> False) -> l = [].
+Proof. intros A [|a l] H; [reflexivity|]. exfalso. apply (H a). left. reflexivity. Qed.
+
+Lemma sub_single : forall {A} (l : list A) q, (forall p, In p l -> p = q) -> length l = 1%nat -> l = [q].
+Proof.
+  intros A [|a [|b l]] q H L; cbn [length] in L; try discriminate.
+  rewrite (H a); [reflexivity|left; reflexivity].
+Qed.
+
+Lemma beginb_ev : forall x, is_beginb x = true -> exists m, se_ev x = TEBlockingBegin m /\ cmach x = m.
+Proof.
+  intros x H. unfold is_beginb in H. unfold cmach. destruct (se_ev x); try discriminate. eauto.
+Qed.
+
+Lemma compl_not_begin_ev : forall x, is_complb x = true -> is_beginb x = false -> exists m, se_ev x = TEPaddingSent m.
+Proof.
+  intros x H1 H2. unfold is_complb in H1. unfold is_beginb in H2. destruct (se_ev x); try discriminate. eauto.
+Qed.
+
+(** one iteration of the main loop *)
+Lemma iter_linvE : forall cc sc tp st t next st1 sq2 net2 act X sd' sq3 pos3 H f G,
+  linvE H st t f G ->
+  pick_next (pn_fuel st) st t = Ok (Some next, st1) ->
+  sim_network_stack next (m_sq st1) (if se_client next then s_bbypass (m_c st1) else s_bbypass (m_s st1))
+                    (m_net st1) (se_time next) = Ok (sq2, net2, act) ->
+  se_client next = X ->
+  trigger_update (if X then cc else sc) tp (if X then m_c st1 else m_s st1) (m_pos st1) next (se_time next) sq2 X
+    = Ok (sd', sq3, pos3) ->
+  let st3 := mksim sq3 (if X then sd' else m_c st1) (if X then m_s st1 else sd') net2 pos3 in
+  exists f' G', linvE (H ++ [mkhrec next (acts_for cc sc tp st1 next)]) st3 (se_time next) f' G'.
+Proof.
+  intros cc sc tp st t next st1 sq2 net2 act X sd' sq3 pos3 H f G [Hinv Hh Hq I HU E BY] Ep En HX Et st3.
+  destruct (pick_next_runE _ _ _ _ _ Hinv Hh Hq Ep) as [R Hh1].
+  destruct (pn_runE_qge _ _ _ _ R next eq_refl) as [Hq1 Ht1].
+  destruct (einv_run _ _ _ _ R H f G HU I (einvR_weaken _ _ _ _ E)) as (G1 & I1 & Gm & E1 & Hnoend).
+  pose proof (SimBlocking.pick_next_inv _ _ _ _ _ Hinv Ep) as Hinv1.
+  pose proof (SimBlocking.network_stack_inv _ _ _ _ _ _ _ _ Hinv1 En) as Hinv2.
+  destruct (network_stack_cq _ _ _ _ _ _ _ _ (proj1 Hinv1) En) as [P2 Hh2].
+  pose proof (SimBlocking.trigger_update_inv _ _ _ _ _ _ _ _ _ _ _ Hinv2 Et) as Hinv3.
+  destruct (trigger_update_spec _ _ _ _ _ _ _ _ _ _ _ Et) as (fw' & acts & Ete & Ea).
+  destruct (apply_actions_cq _ _ _ _ _ _ _ Ea) as [P3 Hh3].
+  destruct (SimTimers.apply_actions_spec _ _ _ _ _ _ _ Ea) as (L1 & _ & S1 & _ & _ & _ & Sbu & Sbb).
+  cbn [side_set_fw s_sched s_buntil s_bbypass] in L1, S1, Sbu, Sbb.
+  assert (Hacts : acts_for cc sc tp st1 next = acts).
+  { unfold acts_for. rewrite HX. rewrite Ete. reflexivity. }
+  assert (Hcq : same_cq st1 st3).
+  { intros Y. unfold cqs, st3. cbn [m_sq]. eapply perm_trans; [apply P3|apply P2]. }
+  assert (Hd3 : same_d st1 st3).
+  { intros Y. unfold dsim, dside, st3. destruct X, Y; cbn [m_c m_s]; rewrite ?Sbu, ?Sbb; reflexivity. }
+  destruct (tinv_take _ _ _ _ _ _ I1) as (f' & G' & A1 & A2 & A3 & A4 & A5).
+  set (r := mkhrec next (acts_for cc sc tp st1 next)).
+  assert (I3 : tinv (H ++ [r]) st3 (se_time next) f' G' noex).
+  { unfold r. rewrite Hacts.
+    apply (tinv_append_x H st1 (se_time next) f G1 next acts st3 f' G' I1 eq_refl A1 A2 A3 A4 A5); rewrite ?HX.
+    - unfold slotsX, st3. destruct X; reflexivity.
+    - unfold slotsX, st3. destruct X; cbn [m_c m_s]; exact L1.
+    - unfold slotsX, st3. destruct X; cbn [m_c m_s]; exact S1.
+    - exact Hcq. }
+  set (H' := H ++ [r]) in *.
+  assert (Hlen' : length H' = S (length H)).
+  { unfold H'. rewrite app_length. cbn [length]. lia. }
+  assert (Hlast : nth_error H' (length H) = Some r) by apply nth_snoc_last.
+  (* stability of the replay and of the causes *)
+  assert (Hflt : forall i ri, (i < length H)%nat -> nth_error H i = Some ri -> is_complb (h_ev ri) = true ->
+            (f i < length H)%nat).
+  { intros i ri Li Hi Hc. pose proof (cause_lt _ _ _ _ (ti_fcause _ _ _ _ _ _ I1 i ri Hi Hc)). lia. }
+  assert (Hrep : forall Y k, (k <= length H)%nat -> replayX Y f' H' k = replayX Y f H k).
+  { intros Y k Lk. unfold replayX, H'. apply replayG_snoc; [exact Lk|intros i Hi; apply A1; lia|].
+    intros i ri Hi. apply Hflt. lia. }
+  assert (HjG1 : forall Y x j, In (x, j) (G1 Y) -> (j < length H)%nat).
+  { intros Y x j Hin. destruct (ti_qcause _ _ _ _ _ _ I1 Y x j Hin) as (_ & C & _). exact (cause_lt _ _ _ _ C). }
+  (* a queued completion is due now *)
+  assert (HtG1 : forall Y x j, In (x, j) (G1 Y) -> se_time x = se_time next).
+  { intros Y x j Hin. destruct (ti_qcause _ _ _ _ _ _ I1 Y x j Hin) as (_ & _ & Lx).
+    pose proof (ti_qperm _ _ _ _ _ _ I1 Y) as P.
+    assert (Hx : In x (ex_of next Y ++ cqs st1 Y)).
+    { apply (Permutation_in _ P). apply in_map_iff. exists (x, j). auto. }
+    apply in_app_or in Hx. destruct Hx as [Hx|Hx].
+    - unfold ex_of in Hx. destruct (_ && _); [|destruct Hx]. destruct Hx as [<-|[]]. reflexivity.
+    - pose proof (Hq1 Y x Hx). lia. }
+  (* the ghosts after the bookkeeping of the returned event *)
+  assert (HGnc : is_complb next = false -> forall Y, G' Y = G1 Y).
+  { intros Hc Y.
+    assert (Len : length (G' Y) = length (G1 Y)).
+    { pose proof (Permutation_length (A4 Y)) as L4.
+      pose proof (Permutation_length (ti_qperm _ _ _ _ _ _ I1 Y)) as L5.
+      rewrite (ex_of_other _ _ Hc) in L5. cbn [app] in L5. rewrite map_length in L4, L5. lia. }
+    destruct E1 as [H1 H2 _|Z z jz H1 H2 _ _].
+    - rewrite (G_empty _ H1 H2 Y) in *. destruct (G' Y); [reflexivity|discriminate].
+    - destruct (negb_cases Z Y) as [->| ->].
+      + rewrite H1 in *. apply sub_single; [|exact Len].
+        intros p Hp. destruct p as [xp jp]. apply A2 in Hp. rewrite H1 in Hp. destruct Hp as [<-|[]]. reflexivity.
+      + rewrite H2 in *. destruct (G' (negb Z)); [reflexivity|discriminate]. }
+  assert (HGc : is_complb next = true ->
+            G1 X = [(next, f' (length H))] /\ G1 (negb X) = [] /\ (forall Y, G' Y = [])).
+  { intros Hc. destruct (A5 Hc) as [Hin Hfr]. rewrite HX in Hin, Hfr.
+    destruct E1 as [H1 H2 _|Z z jz H1 H2 _ _].
+    - rewrite (G_empty _ H1 H2 X) in Hin. destruct Hin.
+    - destruct (negb_cases Z X) as [EZ|EZ]; [|rewrite EZ, H2 in Hin; destruct Hin].
+      subst Z. rewrite H1 in Hin. destruct Hin as [Eq|[]]. injection Eq as -> ->.
+      split; [exact H1|]. split; [exact H2|].
+      intros Y. apply sub_nil. intros [xp jp] Hp.
+      destruct (negb_cases X Y) as [->| ->].
+      + pose proof (A2 _ _ _ Hp) as Hp1. rewrite H1 in Hp1. destruct Hp1 as [Eq|[]]. injection Eq as <- <-.
+        apply (Hfr _ _ Hp); reflexivity.
+      + apply A2 in Hp. rewrite H2 in Hp. destruct Hp. }
+  exists f', G'. constructor.
+  - exact Hinv3.
+  - apply Hh3. apply Hh2. exact Hh1.
+  - intros Y x Hx. apply (Permutation_in _ (Hcq Y)) in Hx. apply (Hq1 Y x Hx).
+  - exact I3.
+  - apply huniq_snoc. exact HU.
+  - (* the exact invariant *)
+    destruct (is_complb next) eqn:Hc.
+    + (* a completion is reported: the replay catches up *)
+      destruct (HGc eq_refl) as (G1X & G1N & Gnil).
+      pose proof (complb_not_bend _ Hc) as Hne.
+      apply einv0; [apply Gnil|apply Gnil|]. intros Y. unfold Rf. rewrite Hlen'.
+      unfold replayX. rewrite (replayG_S _ _ _ _ _ _ Hlast). fold replayX. rewrite Hrep by lia.
+      rewrite (Hd3 Y).
+      destruct E1 as [H1 H2 _|Z z jz H1 H2 H3 H4]; [rewrite (G_empty _ H1 H2 X) in G1X; discriminate|].
+      assert (Z = X) as ->.
+      { destruct (negb_cases Z X) as [EZ|EZ]; [symmetry; exact EZ|]. rewrite EZ, H2 in G1X. discriminate. }
+      rewrite H1 in G1X. injection G1X as -> ->.
+      destruct (negb_cases X Y) as [->| ->].
+      * destruct H4 as [[B Ex]|[B [(a & B1 & B2 & B3)|[M _]]]]; [| |discriminate].
+        -- destruct (compl_not_begin_ev _ Hc B) as (m & Hev).
+           unfold rstep. cbn [r h_ev]. rewrite HX, Bool.eqb_reflx, Hev. rewrite Ex. apply Rp_not_end. exact Hne.
+        -- destruct (beginb_ev _ B) as (m & Hev & Hm).
+           unfold rstep. cbn [r h_ev]. rewrite HX, Bool.eqb_reflx, Hev.
+           rewrite <- Hm. unfold H'. rewrite act_of_snoc by (apply (HjG1 X next); rewrite H1; left; reflexivity).
+           rewrite B1, B2. rewrite (Rp_not_end _ _ _ Hne). reflexivity.
+      * rewrite rstep_other_side by (cbn [r h_ev]; rewrite HX; destruct X; discriminate).
+        rewrite H3. apply Rp_not_end. exact Hne.
+    + (* no completion is reported *)
+      apply (einvR_transfer (Rp H f next) _ H r st1 st3 G1 G'); [|apply HGnc; reflexivity|exact Hd3|exact HjG1|exact E1].
+      intros Y. unfold Rf, Rp. rewrite Hlen'.
+      unfold replayX. rewrite (replayG_S _ _ _ _ _ _ Hlast). fold replayX. rewrite Hrep by lia.
+      apply rstep_Rp. exact Hc.
+  - (* the history property *)
+    intros k rk Hk Hts.
+    apply nth_snoc_inv in Hk. destruct Hk as [[Lk Hk]|[-> ->]].
+    + (* an earlier release *)
+      destruct (BY k rk Hk Hts) as [J|[C3|C4]].
+      * left. rewrite Hrep by lia. exact J.
+      * right. left. destruct C3 as (j & rj & m & Lkj & Hj & Hev & Hside & Htime & Hbetw & (a & Ha & Hrs) & J).
+        assert (Lj : (j < length H)%nat) by (apply nth_error_Some; congruence).
+        exists j, rj, m. split; [exact Lkj|]. split; [apply nth_snoc_lt; exact Hj|].
+        split; [exact Hev|]. split; [exact Hside|]. split; [exact Htime|]. split; [|split].
+        -- intros i ri Hi Hni. apply nth_snoc_inv in Hni. destruct Hni as [[_ Hni]|[-> _]]; [|lia].
+           apply (Hbetw i ri Hi Hni).
+        -- exists a. rewrite (A1 j Lj). unfold H'. rewrite act_of_snoc; [|apply (Hflt j rj Lj Hj); apply begin_compl in Hev; tauto].
+           split; [exact Ha|]. fold H'. rewrite !Hrep by lia. exact Hrs.
+        -- rewrite Hrep by lia. exact J.
+      * destruct C4 as (x & j & a & HGX & Hb & Ha & Htx & Hlater & J).
+        set (Xk := se_client (h_ev rk)) in *.
+        (* the pending BlockingBegin is the only ghost, before and after pick_next *)
+        assert (HinG : In (x, j) (G Xk)) by (rewrite HGX; left; reflexivity).
+        pose proof (Gm _ _ HinG) as HinG1.
+        assert (HG1 : G1 Xk = [(x, j)] /\ G1 (negb Xk) = []).
+        { destruct E1 as [H1 H2 _|Z z jz H1 H2 _ _]; [rewrite (G_empty _ H1 H2 Xk) in HinG1; destruct HinG1|].
+          destruct (negb_cases Z Xk) as [EZ|EZ]; [|rewrite EZ, H2 in HinG1; destruct HinG1].
+          subst Z. rewrite H1 in HinG1. destruct HinG1 as [Eq|[]]. injection Eq as -> ->. auto. }
+        destruct HG1 as [HG1a HG1b].
+        assert (Hpn : pnormal (Rf H f) H st Xk x j).
+        { destruct E as [H1 H2 _|Z z jz H1 H2 _ H4]; [rewrite (G_empty _ H1 H2 Xk) in HinG; destruct HinG|].
+          destruct (negb_cases Z Xk) as [EZ|EZ]; [|rewrite EZ, H2 in HinG; destruct HinG].
+          subst Z. rewrite H1 in HGX. injection HGX as -> ->.
+          destruct H4 as [[B _]|[_ [P|[M _]]]]; [congruence|exact P|discriminate]. }
+        pose proof (Hnoend Xk x j HGX Hb Hpn) as Hnb.
+        pose proof (HtG1 Xk x j HinG1) as Htn.
+        pose proof (HjG1 Xk x j HinG1) as Ljx.
+        destruct (is_complb next) eqn:Hc.
+        -- (* the pending BlockingBegin is reported now: clause (3) *)
+           destruct (HGc eq_refl) as (G1X & G1N & Gnil).
+           assert (Xk = X) as EX.
+           { destruct (negb_cases X Xk) as [EZ|EZ]; [exact EZ|]. rewrite EZ, G1N in HinG1. destruct HinG1. }
+           rewrite EX in *. rewrite G1X in HG1a. injection HG1a as Ex Ej. subst x.
+           destruct (beginb_ev _ Hb) as (m & Hev & Hm).
+           right. left. exists (length H), r, m.
+           split; [exact Lk|]. split; [exact Hlast|]. split; [exact Hev|]. split; [exact HX|].
+           split; [cbn [r h_ev]; congruence|]. split; [|].
+           { intros i ri Hi Hni Hsi. apply nth_snoc_inv in Hni. destruct Hni as [[_ Hni]|[-> _]]; [|lia].
+             destruct (Hlater i ri) as [_ Hl2]; [lia|exact Hni|]. apply (Hl2 Hsi). }
+           assert (Hconst : replayX X f H (length H) = replayX X f H k).
+           { unfold replayX. apply replayG_const; [lia|]. intros i ri Hi Hni Hsi.
+             destruct (Nat.eq_dec i k) as [->|Hik].
+             - rewrite Hk in Hni. injection Hni as <-. unfold is_complb. rewrite Hts. split; [reflexivity|discriminate].
+             - destruct (Hlater i ri) as [_ Hl2]; [lia|exact Hni|]. apply (Hl2 Hsi). }
+           assert (Hstep : replayX X f' H' (S (length H)) = replay_begin_r (replayX X f' H' k) (se_time (h_ev rk)) a).
+           { unfold replayX at 1. rewrite (replayG_S _ _ _ _ _ _ Hlast). fold replayX. rewrite !Hrep by lia.
+             unfold rstep. cbn [r h_ev]. rewrite HX, Bool.eqb_reflx, Hev.
+             rewrite Ej. unfold H'. rewrite act_of_snoc by exact Ljx. rewrite <- Hm, Ha, Hconst. congruence. }
+           split.
+           ++ exists a. split; [|exact Hstep].
+              rewrite Ej. unfold H'. rewrite act_of_snoc by exact Ljx. rewrite <- Hm. exact Ha.
+           ++ rewrite Hstep, Hrep by lia. rewrite <- Htx. exact J.
+        -- (* it stays pending *)
+           right. right. exists x, j, a.
+           split; [rewrite HGnc by reflexivity; exact HG1a|]. split; [exact Hb|].
+           split; [unfold H'; rewrite act_of_snoc by exact Ljx; exact Ha|]. split; [exact Htx|]. split.
+           ++ intros i ri Hi Hni. apply nth_snoc_inv in Hni. destruct Hni as [[_ Hni]|[-> ->]]; [apply (Hlater i ri Hi Hni)|].
+              cbn [r h_ev]. split; [congruence|]. intros Hsn. split; [exact Hc|].
+              intros Hend. apply Hnb. split; assumption.
+           ++ rewrite Hrep by lia. exact J.
+    + (* the release being recorded *)
+      cbn [r h_ev] in Hts |- *. rewrite HX.
+      assert (Hc : is_complb next = false) by (unfold is_complb; rewrite Hts; reflexivity).
+      assert (Hne : se_ev next <> TEBlockingEnd) by (rewrite Hts; discriminate).
+      pose proof (SimBlocking.pick_next_no_leak _ _ _ _ _ (proj1 Hinv) Ep Hts) as NL. cbv zeta in NL.
+      rewrite HX in NL. apply judged_of_leak in NL. fold (dsim st1 X) in NL.
+      destruct E1 as [H1 H2 H3|Z z jz H1 H2 H3 H4].
+      * left. rewrite Hrep by lia. rewrite H3, (Rp_not_end _ _ _ Hne) in NL. exact NL.
+      * destruct (negb_cases Z X) as [EZ|EZ].
+        -- subst Z. destruct H4 as [[B Ex]|[B [(a & B1 & B2 & B3)|[M _]]]]; [| |discriminate].
+           ++ left. rewrite Hrep by lia. rewrite Ex, (Rp_not_end _ _ _ Hne) in NL. exact NL.
+           ++ right. right. exists z, jz, a.
+              assert (Hin : In (z, jz) (G1 X)) by (rewrite H1; left; reflexivity).
+              split; [rewrite HGnc by exact Hc; exact H1|]. split; [exact B|].
+              split; [unfold H'; rewrite act_of_snoc by (apply (HjG1 X z jz Hin)); exact B1|].
+              split; [apply (HtG1 X z jz Hin)|]. split.
+              ** intros i ri Hi Hni. apply nth_snoc_inv in Hni. destruct Hni as [[Li _]|[-> _]]; lia.
+              ** rewrite Hrep by lia. rewrite B2, (Rp_not_end _ _ _ Hne) in NL. exact NL.
+        -- left. rewrite Hrep by lia. rewrite <- EZ in H3. rewrite H3, (Rp_not_end _ _ _ Hne) in NL. exact NL.
+Qed.
+
+(** the claim about one release [k], for a begin rule [rb]: clauses (1), (2), (3), (4).
+    [claim_full] adds to (3) that the replay including the late report [j] is ONE [rb] step, with THE
+    action that caused [j], from the replay at [k]. *)
+Definition claim_full (rb : bdesc -> Z -> taction -> bdesc) (f : nat -> nat) (H : list hrec) (k : nat) (rk : hrec) : Prop :=
+  let X := se_client (h_ev rk) in
+  let b0 := replayG rb X f H k in
+  b0 = None \/
+  (exists u, b0 = Some (u, true) /\ se_bypass (h_ev rk) = true) \/
+  (exists j rj m, (k < j)%nat /\ nth_error H j = Some rj /\ se_ev (h_ev rj) = TEBlockingBegin m /\
+     se_client (h_ev rj) = X /\ se_time (h_ev rj) = se_time (h_ev rk) /\
+     (forall i ri, (k < i < j)%nat -> nth_error H i = Some ri -> se_client (h_ev ri) = X ->
+        is_complb (h_ev ri) = false) /\
+     (exists a, act_of H (f j) m = Some a /\ replayG rb X f H (S j) = rb b0 (se_time (h_ev rk)) a) /\
+     let b1 := replayG rb X f H (S j) in
+     b1 = None \/ (exists u, b1 = Some (u, true) /\ se_bypass (h_ev rk) = true)) \/
+  (forall i ri, (k < i)%nat -> nth_error H i = Some ri ->
+     se_time (h_ev ri) = se_time (h_ev rk) /\ (se_client (h_ev ri) = X -> is_complb (h_ev ri) = false)).
+
+Definition claim (rb : bdesc -> Z -> taction -> bdesc) (f : nat -> nat) (H : list hrec) (k : nat) (rk : hrec) : Prop :=
+  let X := se_client (h_ev rk) in
+  let b0 := replayG rb X f H k in
+  b0 = None \/
+  (exists u, b0 = Some (u, true) /\ se_bypass (h_ev rk) = true) \/
+  (exists j rj m, (k < j)%nat /\ nth_error H j = Some rj /\ se_ev (h_ev rj) = TEBlockingBegin m /\
+     se_client (h_ev rj) = X /\ se_time (h_ev rj) = se_time (h_ev rk) /\
+     (forall i ri, (k < i < j)%nat -> nth_error H i = Some ri -> se_client (h_ev ri) = X ->
+        is_complb (h_ev ri) = false) /\
+     let b1 := replayG rb X f H (S j) in
+     b1 = None \/ (exists u, b1 = Some (u, true) /\ se_bypass (h_ev rk) = true)) \/
+  (forall i ri, (k < i)%nat -> nth_error H i = Some ri ->
+     se_time (h_ev ri) = se_time (h_ev rk) /\ (se_client (h_ev ri) = X -> is_complb (h_ev ri) = false)).
+
+Lemma claim_full_claim : forall rb f H k rk, claim_full rb f H k rk -> claim rb f H k rk.
+Proof.
+  intros rb f H k rk [C|[C|[(j & rj & m & C1 & C2 & C3 & C4 & C5 & C6 & _ & C8)|C]]].
+  - left. exact C.
+  - right. left. exact C.
+  - right. right. left. exists j, rj, m. auto 10.
+  - right. right. right. exact C.
+Qed.
+
+(** what the invariant says about a finished history *)
+Definition finE (H : list hrec) (f : nat -> nat) : Prop :=
+  fin H f /\ forall k rk, nth_error H k = Some rk -> se_ev (h_ev rk) = TETunnelSent -> claim_full replay_begin_r f H k rk.
+
+Lemma linvE_fin : forall H st t f G, linvE H st t f G -> finE H f.
+Proof.
+  intros H st t f G L. split; [eapply tinv_fin; exact (le_t _ _ _ _ _ L)|].
+  intros k rk Hk Hts. unfold claim_full. cbv zeta. fold replayX.
+  destruct (le_h _ _ _ _ _ L k rk Hk Hts) as [[J|J]|[C3|C4]].
+  - left. exact J.
+  - right. left. exact J.
+  - right. right. left. destruct C3 as (j & rj & m & C1 & C2 & C3 & C4 & C5 & C6 & C7 & C8).
+    exists j, rj, m. repeat (split; [assumption|]). exact C8.
+  - right. right. right. destruct C4 as (x & j & a & _ & _ & _ & _ & Hl & _).
+    intros i ri Hi Hni. destruct (Hl i ri Hi Hni) as [T1 T2]. split; [exact T1|]. intros Hs. apply (T2 Hs).
+Qed.
+
+Theorem loop_finE : forall fuel cc sc tp args st t hist iters Hout,
+  sim_loop_h fuel cc sc tp args st t hist iters = Ok Hout ->
+  forall f G, linvE (rev hist) st t f G -> exists f', finE Hout f'.
+Proof.
+  induction fuel as [|fuel IH]; intros cc sc tp args st t hist iters Hout H f G L; [discriminate|].
+  cbn [sim_loop_h] in H.
+  destruct (pick_next (pn_fuel st) st t) as [[nx st1]|k|] eqn:Ep; cbn [bind] in H; try discriminate.
+  destruct nx as [next|]; [|injection H as <-; exists f; eapply linvE_fin; exact L].
+  destruct (se_time next <? t)%Z; [discriminate|].
+  destruct (sim_network_stack next (m_sq st1) _ (m_net st1) (se_time next)) as [[[sq2 net2] act]|k|] eqn:En;
+    cbn [bind] in H; try discriminate.
+  assert (Hu : exists c3' s3 sq3 pos3,
+             (let st3 := mksim sq3 c3' s3 net2 pos3 in
+              exists f' G', linvE (rev hist ++ [mkhrec next (acts_for cc sc tp st1 next)]) st3 (se_time next) f' G') /\
+             (let st3 := mksim sq3 c3' s3 net2 pos3 in
+              let hist' := mkhrec next (acts_for cc sc tp st1 next) :: hist in
+              (if (0 <? a_max_trace args) && (a_max_trace args <=? N.of_nat (length hist')) then Ok (rev hist')
+               else
+                 let iters' := iters + 1 in
+                 if (0 <? a_max_iter args) && (a_max_iter args <=? iters') then Ok (rev hist')
+                 else if negb (a_continue args) && sq_no_normal sq3 then Ok (rev hist')
+                 else sim_loop_h fuel cc sc tp args st3 (se_time next) hist' iters') = Ok Hout)).
+  { destruct (se_client next) eqn:Ec.
+    - destruct (trigger_update cc tp (m_c st1) (m_pos st1) next (se_time next) sq2 true) as [[[c' sq'] p']|k|] eqn:Et;
+        cbn [bind] in H; try discriminate.
+      exists c', (m_s st1), sq', p'. split; [|exact H].
+      apply (iter_linvE cc sc tp st t next st1 sq2 net2 act true c' sq' p' (rev hist) f G L Ep); auto.
+      rewrite Ec. exact En.
+    - destruct (trigger_update sc tp (m_s st1) (m_pos st1) next (se_time next) sq2 false) as [[[s' sq'] p']|k|] eqn:Et;
+        cbn [bind] in H; try discriminate.
+      exists (m_c st1), s', sq', p'. split; [|exact H].
+      apply (iter_linvE cc sc tp st t next st1 sq2 net2 act false s' sq' p' (rev hist) f G L Ep); auto.
+      rewrite Ec. exact En. }
+  clear H. destruct Hu as (c3' & s3 & sq3 & pos3 & (f' & G' & L3) & H). cbv zeta in H.
+  assert (Hfin : exists f'', finE (rev (mkhrec next (acts_for cc sc tp st1 next) :: hist)) f'').
+  { exists f'. cbn [rev]. eapply linvE_fin. exact L3. }
+  destruct (_ && _) in H; [injection H as <-; exact Hfin|].
+  destruct (_ && _) in H; [injection H as <-; exact Hfin|].
+  destruct (_ && _) in H; [injection H as <-; exact Hfin|].
+  eapply (IH _ _ _ _ _ _ _ _ _ H f' G'). exact L3.
+Qed.
+
+(** the initial state: nothing is queued, neither side blocks *)
+Lemma init_linvE : forall cc sc tp sq delay pps st0 t0,
+  sim_init cc sc tp sq delay pps st0 t0 -> SimBlocking.sq_inv sq -> sq_start sq ->
+  linvE [] st0 t0 (fun _ => 0%nat) (fun _ => []).
+Proof.
+  intros cc sc tp sq delay pps st0 t0 Hi Hinv Hs.
+  destruct (init_tinv _ _ _ _ _ _ _ _ Hi Hs) as (I & Hq & Hh & Esq).
+  constructor.
+  - rewrite Esq. exact Hinv.
+  - exact Hh.
+  - exact Hq.
+  - exact I.
+  - intros r a a' [].
+  - apply einv0; [reflexivity|reflexivity|].
+    destruct Hi as (cfw & sfw & net & _ & _ & _ & _ & ->). intros [|]; reflexivity.
+  - intros k rk Hk. destruct k; discriminate.
+Qed.
+
+(** * 6. The theorems *)
+
+Section Run.
+  Variables (fuel : nat) (cc sc : cfg) (tp : tape) (args : simargs) (st0 : sim) (t0 : Z) (H : list hrec).
+  Variables (sq : simq) (delay : N) (pps : option N).
+  Hypothesis Hinit : sim_init cc sc tp sq delay pps st0 t0.
+  Hypothesis Hinv : SimBlocking.sq_inv sq.          (* every parsed trace: SimBlocking.parse_trace_inv *)
+  Hypothesis Hstart : sq_start sq.                   (* every parsed trace: parse_trace_start *)
+  Hypothesis Hrun : sim_loop_h fuel cc sc tp args st0 t0 [] 0 = Ok H.
+
+  Lemma run_finE : exists f, finE H f.
+  Proof.
+    eapply (loop_finE _ _ _ _ _ _ _ _ _ _ Hrun). cbn [rev].
+    exact (init_linvE _ _ _ _ _ _ _ _ Hinit Hinv Hstart).
+  Qed.
+
+  (** for the instrumented loop from any initial queue satisfying [sq_inv] and [sq_start]: a cause
+      assignment [f] (sound, exact timing, injective) such that every released TunnelSent is justified by
+      the replay of the reports *)
+  Theorem bypass_all_replay_run : exists f : nat -> nat,
+    (forall k rk m, nth_error H k = Some rk ->
+       (se_ev (h_ev rk) = TEPaddingSent m \/ se_ev (h_ev rk) = TEBlockingBegin m) ->
+       caused_by H k rk m (f k)) /\
+    (forall k1 k2 rk1 rk2 m, k1 <> k2 -> nth_error H k1 = Some rk1 -> nth_error H k2 = Some rk2 ->
+       (se_ev (h_ev rk1) = TEPaddingSent m \/ se_ev (h_ev rk1) = TEBlockingBegin m) ->
+       (se_ev (h_ev rk2) = TEPaddingSent m \/ se_ev (h_ev rk2) = TEBlockingBegin m) ->
+       f k1 <> f k2) /\
+    forall k rk, nth_error H k = Some rk -> se_ev (h_ev rk) = TETunnelSent ->
+      claim_full replay_begin_r f H k rk.
+  Proof.
+    destruct run_finE as (f & (F1 & F2) & CL). exists f. split; [|split].
+    - intros k rk m Hk Hev. destruct (compl_of_ev _ _ Hev) as [Hc Hm].
+      exact (cause_caused_by _ _ _ _ _ (F1 k rk Hk Hc) Hm).
+    - intros k1 k2 rk1 rk2 m Hne Hk1 Hk2 Hev1 Hev2 E.
+      destruct (compl_of_ev _ _ Hev1) as [Hc1 Hm1]. destruct (compl_of_ev _ _ Hev2) as [Hc2 Hm2].
+      destruct (F1 k1 rk1 Hk1 Hc1) as (rj1 & a1 & _ & N1 & S1 & _).
+      destruct (F1 k2 rk2 Hk2 Hc2) as (rj2 & a2 & _ & N2 & S2 & _).
+      rewrite E in N1. rewrite N1 in N2. injection N2 as <-.
+      apply (F2 k1 k2 rk1 rk2 Hne Hk1 Hk2 Hc1 Hc2); [unfold sdr; congruence|congruence|exact E].
+    - exact CL.
+  Qed.
+End Run.
+
+(** ** For the runs of [sim_advanced] on parsed traces (all events recorded)
+
+    THE TRUE VARIANT of the target. It differs from the target as first stated in ONE place: the replay
+    [replayX] uses the rule [replay_begin_r] (a zero-duration replacing block leaves the side not
+    blocking) instead of [replay_begin]; see [stated_target_refuted] below for why this is necessary.
+    Clause (3) is additionally sharpened: the replay including the late report [j] is one
+    [replay_begin_r] step, with THE action that caused [j], from the replay at the release [k]. *)
+Theorem bypass_all_replay_partial : forall fuel cc sc tp tr delay pps args out,
+  SimHistory.full_args args ->
+  sim_advanced fuel cc sc tp (parse_trace tr delay) delay pps args = Ok out ->
+  exists H : list SimHistory.hrec, out = map SimHistory.h_ev H /\
+  exists f : nat -> nat,
+    (forall k rk m, nth_error H k = Some rk ->
+       (se_ev (h_ev rk) = TEPaddingSent m \/ se_ev (h_ev rk) = TEBlockingBegin m) ->
+       SimActionTrace.caused_by H k rk m (f k)) /\
+    forall k rk, nth_error H k = Some rk -> se_ev (h_ev rk) = TETunnelSent ->
+      let X := se_client (h_ev rk) in
+      let b0 := replayX X f H k in
+      (* (1) not blocking according to the reports *)
+      b0 = None \/
+      (* (2) blocking, every contributor allowed bypass, the packet carries the bypass flag *)
+      (exists u, b0 = Some (u, true) /\ se_bypass (h_ev rk) = true) \/
+      (* (3) one BlockingBegin of side X fired in this very instant and is reported later *)
+      (exists j rj m, (k < j)%nat /\ nth_error H j = Some rj /\ se_ev (h_ev rj) = TEBlockingBegin m /\
+         se_client (h_ev rj) = X /\ se_time (h_ev rj) = se_time (h_ev rk) /\
+         (forall i ri, (k < i < j)%nat -> nth_error H i = Some ri -> se_client (h_ev ri) = X ->
+            is_complb (h_ev ri) = false) /\
+         (exists a, act_of H (f j) m = Some a /\
+            replayX X f H (S j) = replay_begin_r b0 (se_time (h_ev rk)) a) /\
+         let b1 := replayX X f H (S j) in
+         b1 = None \/ (exists u, b1 = Some (u, true) /\ se_bypass (h_ev rk) = true)) \/
+      (* (4) the run was cut within this instant *)
+      (forall i ri, (k < i)%nat -> nth_error H i = Some ri ->
+         se_time (h_ev ri) = se_time (h_ev rk) /\ (se_client (h_ev ri) = X -> is_complb (h_ev ri) = false)).
+Proof.
+  intros fuel cc sc tp tr delay pps args out Hf Hrun.
+  destruct (sim_advanced_history _ _ _ _ _ _ _ _ _ Hf Hrun) as (st0 & t0 & H & Hi & Hl & ->).
+  exists H. split; [reflexivity|].
+  destruct (bypass_all_replay_run fuel cc sc tp args st0 t0 H _ delay pps Hi
+              (SimBlocking.parse_trace_inv tr delay) (parse_trace_start tr delay) Hl) as (f & F1 & _ & F3).
+  exists f. split; [exact F1|exact F3].
+Qed.
+
+(** the same, with the history tied to the instrumented loop (the records carry the actions the
+    frameworks really returned) and with the injectivity of the cause assignment *)
+Theorem bypass_all_replay_history_partial : forall fuel cc sc tp tr delay pps args out,
+  SimHistory.full_args args ->
+  sim_advanced fuel cc sc tp (parse_trace tr delay) delay pps args = Ok out ->
+  exists st0 t0 (H : list SimHistory.hrec),
+    sim_init cc sc tp (parse_trace tr delay) delay pps st0 t0 /\
+    sim_loop_h fuel cc sc tp args st0 t0 [] 0 = Ok H /\ out = map SimHistory.h_ev H /\
+  exists f : nat -> nat,
+    (forall k rk m, nth_error H k = Some rk ->
+       (se_ev (h_ev rk) = TEPaddingSent m \/ se_ev (h_ev rk) = TEBlockingBegin m) ->
+       SimActionTrace.caused_by H k rk m (f k)) /\
+    (forall k1 k2 rk1 rk2 m, k1 <> k2 -> nth_error H k1 = Some rk1 -> nth_error H k2 = Some rk2 ->
+       (se_ev (h_ev rk1) = TEPaddingSent m \/ se_ev (h_ev rk1) = TEBlockingBegin m) ->
+       (se_ev (h_ev rk2) = TEPaddingSent m \/ se_ev (h_ev rk2) = TEBlockingBegin m) ->
+       f k1 <> f k2) /\
+    forall k rk, nth_error H k = Some rk -> se_ev (h_ev rk) = TETunnelSent ->
+      claim_full replay_begin_r f H k rk.
+Proof.
+  intros fuel cc sc tp tr delay pps args out Hf Hrun.
+  destruct (sim_advanced_history _ _ _ _ _ _ _ _ _ Hf Hrun) as (st0 & t0 & H & Hi & Hl & ->).
+  exists st0, t0, H. split; [exact Hi|]. split; [exact Hl|]. split; [reflexivity|].
+  exact (bypass_all_replay_run fuel cc sc tp args st0 t0 H _ delay pps Hi
+           (SimBlocking.parse_trace_inv tr delay) (parse_trace_start tr delay) Hl).
+Qed.
+
+(** ** The target with the literal rule [replay_begin], for runs without zero-duration replacing blocks *)
+
+Definition no_zero_replace (H : list hrec) : Prop :=
+  forall r a, In r H -> In a (h_acts r) -> zero_replace a = false.
+
+Lemma act_of_in : forall H j m a, act_of H j m = Some a -> exists r, In r H /\ In a (h_acts r).
+Proof.
+  intros H j m a E. unfold act_of in E. destruct (nth_error H j) as [rj|] eqn:Ej; [|discriminate].
+  exists rj. split; [eapply nth_error_In; exact Ej|]. apply find_some in E. tauto.
+Qed.
+
+Lemma replayG_rb_ext : forall {D} (rb1 rb2 : option D -> Z -> taction -> option D) X f H k,
+  (forall j m a b t, act_of H j m = Some a -> rb1 b t a = rb2 b t a) ->
+  replayG rb1 X f H k = replayG rb2 X f H k.
+Proof.
+  intros D rb1 rb2 X f H k Hx. induction k as [|k IH]; [reflexivity|].
+  cbn [replayG]. rewrite IH. destruct (nth_error H k) as [rk|]; [|reflexivity].
+  unfold rstep. destruct (Bool.eqb _ X); [|reflexivity].
+  destruct (se_ev (h_ev rk)); try reflexivity.
+  destruct (act_of H (f k) m) as [a|] eqn:E; [|reflexivity]. apply (Hx _ _ _ _ _ E).
+Qed.
+
+Lemma replayS_eq : forall H X f k, no_zero_replace H -> replayS X f H k = replayX X f H k.
+Proof.
+  intros H X f k Hz. unfold replayS, replayX. apply replayG_rb_ext.
+  intros j m a b t E. destruct (act_of_in _ _ _ _ E) as (r & Hr & Ha).
+  unfold replay_begin_r. rewrite (Hz r a Hr Ha). reflexivity.
+Qed.
+
+Lemma claim_full_stated : forall f H k rk, no_zero_replace H ->
+  claim_full replay_begin_r f H k rk -> claim_full replay_begin f H k rk.
+Proof.
+  intros f H k rk Hz C. unfold claim_full in *. cbv zeta in *.
+  fold replayX in C. fold replayS.
+  rewrite !(replayS_eq H _ f _ Hz).
+  destruct C as [C|[C|[(j & rj & m & C1 & C2 & C3 & C4 & C5 & C6 & (a & C7 & C7') & C8)|C]]].
+  - left. exact C.
+  - right. left. exact C.
+  - right. right. left. exists j, rj, m. repeat (split; [assumption|]).
+    rewrite !(replayS_eq H _ f _ Hz). split; [|exact C8].
+    exists a. split; [exact C7|]. rewrite C7'.
+    destruct (act_of_in _ _ _ _ C7) as (r & Hr & Ha).
+    unfold replay_begin_r. rewrite (Hz r a Hr Ha). reflexivity.
+  - right. right. right. exact C.
+Qed.
+
+(** the target AS FIRST STATED (replay with the contract rule [replay_begin]) holds for every run in
+    which no framework returned a zero-duration replacing BlockOutgoing *)
+Theorem bypass_all_replay_stated_no_zero_replace : forall fuel cc sc tp tr delay pps args out,
+  SimHistory.full_args args ->
+  sim_advanced fuel cc sc tp (parse_trace tr delay) delay pps args = Ok out ->
+  exists H : list SimHistory.hrec, out = map SimHistory.h_ev H /\
+  exists f : nat -> nat,
+    (forall k rk m, nth_error H k = Some rk ->
+       (se_ev (h_ev rk) = TEPaddingSent m \/ se_ev (h_ev rk) = TEBlockingBegin m) ->
+       SimActionTrace.caused_by H k rk m (f k)) /\
+    (no_zero_replace H ->
+     forall k rk, nth_error H k = Some rk -> se_ev (h_ev rk) = TETunnelSent ->
+      let X := se_client (h_ev rk) in
+      let b0 := replayS X f H k in
+      b0 = None \/
+      (exists u, b0 = Some (u, true) /\ se_bypass (h_ev rk) = true) \/
+      (exists j rj m, (k < j)%nat /\ nth_error H j = Some rj /\ se_ev (h_ev rj) = TEBlockingBegin m /\
+         se_client (h_ev rj) = X /\ se_time (h_ev rj) = se_time (h_ev rk) /\
+         (forall i ri, (k < i < j)%nat -> nth_error H i = Some ri -> se_client (h_ev ri) = X ->
+            is_complb (h_ev ri) = false) /\
+         (exists a, act_of H (f j) m = Some a /\
+            replayS X f H (S j) = replay_begin b0 (se_time (h_ev rk)) a) /\
+         let b1 := replayS X f H (S j) in
+         b1 = None \/ (exists u, b1 = Some (u, true) /\ se_bypass (h_ev rk) = true)) \/
+      (forall i ri, (k < i)%nat -> nth_error H i = Some ri ->
+         se_time (h_ev ri) = se_time (h_ev rk) /\ (se_client (h_ev ri) = X -> is_complb (h_ev ri) = false))).
+Proof.
+  intros fuel cc sc tp tr delay pps args out Hf Hrun.
+  destruct (sim_advanced_history _ _ _ _ _ _ _ _ _ Hf Hrun) as (st0 & t0 & H & Hi & Hl & ->).
+  exists H. split; [reflexivity|].
+  destruct (bypass_all_replay_run fuel cc sc tp args st0 t0 H _ delay pps Hi
+              (SimBlocking.parse_trace_inv tr delay) (parse_trace_start tr delay) Hl) as (f & F1 & _ & F3).
+  exists f. split; [exact F1|].
+  intros Hz k rk Hk Hts. exact (claim_full_stated f H k rk Hz (F3 k rk Hk Hts)).
+Qed.
+
+(** ** What the flag of the replay means: the conjunction over the contributing actions
+
+    [replayC] is the same replay carrying, instead of the flag, the LIST of the actions that started,
+    replaced or extended the current blocking (start / replace: the action alone; extension: added;
+    a BlockingBegin that does not move the expiry: not a contributor). The flag of [replayX] is the
+    conjunction of [block_bypass] over that list ([replayC_flag]); so clauses (2) and (3) say: EVERY
+    action that started or updated the current blocking allowed bypass ([replay_flag_true_all]), and
+    each of them is the cause of a BlockingBegin of that side reported since the last BlockingEnd
+    ([replayC_sound]). *)
+Definition cdesc := option (Z * list taction).
+
+Definition replay_begin_c (b : cdesc) (t : Z) (a : taction) : cdesc :=
+  match a with
+  | TBlockOutgoing _ _ dur by_ rp =>
+      if zero_replace a then None
+      else
+        match b with
+        | None => if (0 <? dur) || rp then Some ((t + Z.of_N dur)%Z, [a]) else None
+        | Some (u, cs) =>
+            if rp then Some ((t + Z.of_N dur)%Z, [a])
+            else if (u <? t + Z.of_N dur)%Z then Some ((t + Z.of_N dur)%Z, a :: cs)
+            else Some (u, cs)
+        end
+  | _ => b
+  end.
+
+Definition flag_of (c : cdesc) : bdesc :=
+  match c with None => None | Some (u, cs) => Some (u, forallb block_bypass cs) end.
+
+Definition replayC : bool -> (nat -> nat) -> list hrec -> nat -> cdesc := replayG replay_begin_c.
+
+Lemma flag_of_begin : forall c t a, flag_of (replay_begin_c c t a) = replay_begin_r (flag_of c) t a.
+Proof.
+  intros c t a. destruct a as [m tm|m tmo by_ rp|m tmo dur by_ rp|m dur rp]; try reflexivity.
+  unfold replay_begin_r, replay_begin_c.
+  destruct (zero_replace (TBlockOutgoing m tmo dur by_ rp)); [reflexivity|].
+  destruct c as [[u cs]|]; cbn [flag_of replay_begin].
+  - destruct rp.
+    + cbn [flag_of forallb block_bypass]. rewrite Bool.andb_true_r. reflexivity.
+    + destruct (u <? t + Z.of_N dur)%Z; cbn [flag_of forallb block_bypass]; [|reflexivity].
+      rewrite Bool.andb_comm. reflexivity.
+  - destruct ((0 <? dur) || rp); [|reflexivity].
+    cbn [flag_of forallb block_bypass]. rewrite Bool.andb_true_r. reflexivity.
+Qed.
+
+Lemma replayC_flag : forall X f H k, flag_of (replayC X f H k) = replayX X f H k.
+Proof.
+  intros X f H k. unfold replayC, replayX. induction k as [|k IH]; [reflexivity|].
+  cbn [replayG]. destruct (nth_error H k) as [rk|]; [|exact IH].
+  rewrite <- IH. unfold rstep. destruct (Bool.eqb _ X); [|reflexivity].
+  destruct (se_ev (h_ev rk)); try reflexivity.
+  destruct (act_of H (f k) m); [apply flag_of_begin|reflexivity].
+Qed.
+
+(** the flag of the replayed descriptor is the conjunction over the contributors *)
+Theorem replay_flag_all : forall X f H k u fl, replayX X f H k = Some (u, fl) ->
+  exists cs, replayC X f H k = Some (u, cs) /\ fl = forallb block_bypass cs.
+Proof.
+  intros X f H k u fl E. rewrite <- replayC_flag in E. unfold flag_of in E.
+  destruct (replayC X f H k) as [[u' cs]|]; [|discriminate]. injection E as <- <-. eauto.
+Qed.
+
+(** "bypassable" means: the action that started or last replaced the blocking and every action that
+    extended it since allowed bypass *)
+Theorem replay_flag_true_all : forall X f H k u, replayX X f H k = Some (u, true) ->
+  exists cs, replayC X f H k = Some (u, cs) /\ forall a, In a cs -> block_bypass a = true.
+Proof.
+  intros X f H k u E. destruct (replay_flag_all _ _ _ _ _ _ E) as (cs & Ec & Hfl).
+  exists cs. split; [exact Ec|]. symmetry in Hfl. rewrite forallb_forall in Hfl. exact Hfl.
+Qed.
+
+(** one BlockingBegin either leaves the descriptor as it was or its action is a contributor (and it
+    is the only one if it started or replaced the blocking) *)
+Lemma replay_begin_c_step : forall b t a u cs, replay_begin_c b t a = Some (u, cs) ->
+  b = Some (u, cs) \/ cs = [a] \/ (exists u0 cs0, b = Some (u0, cs0) /\ cs = a :: cs0 /\ (u0 < u)%Z).
+Proof.
+  intros b t a u cs E.
+  destruct a as [m tm|m tmo by_ rp|m tmo dur by_ rp|m dur rp]; try (left; exact E).
+  unfold replay_begin_c in E. destruct (zero_replace _); [discriminate|].
+  destruct b as [[u0 cs0]|].
+  - destruct rp; [injection E as <- <-; auto|].
+    destruct (Z.ltb_spec u0 (t + Z.of_N dur)); [|left; exact E].
+    injection E as <- <-. right. right. exists u0, cs0. auto.
+  - destruct (_ || _); [|discriminate]. injection E as <- <-. auto.
+Qed.
+
+(** every contributor is THE action that caused a BlockingBegin of side [X] reported before [k], with
+    no BlockingEnd of [X] reported since *)
+Theorem replayC_sound : forall X f H k u cs, replayC X f H k = Some (u, cs) ->
+  forall a, In a cs ->
+  exists i ri m, (i < k)%nat /\ nth_error H i = Some ri /\ se_ev (h_ev ri) = TEBlockingBegin m /\
+    se_client (h_ev ri) = X /\ act_of H (f i) m = Some a /\
+    forall i' ri', (i < i' < k)%nat -> nth_error H i' = Some ri' -> ~ is_bend X (h_ev ri').
+Proof.
+  intros X f H. unfold replayC. induction k as [|k IH]; intros u cs E a Ha; [discriminate|].
+  cbn [replayG] in E. destruct (nth_error H k) as [rk|] eqn:Ek.
+  - assert (Hold : forall u0 cs0, replayG replay_begin_c X f H k = Some (u0, cs0) -> In a cs0 ->
+              ~ is_bend X (h_ev rk) ->
+              exists i ri m, (i < S k)%nat /\ nth_error H i = Some ri /\ se_ev (h_ev ri) = TEBlockingBegin m /\
+                se_client (h_ev ri) = X /\ act_of H (f i) m = Some a /\
+                forall i' ri', (i < i' < S k)%nat -> nth_error H i' = Some ri' -> ~ is_bend X (h_ev ri')).
+    { intros u0 cs0 E0 Ha0 Hnb. destruct (IH u0 cs0 E0 a Ha0) as (i & ri & m & Li & Hi & Hev & Hs & Hact & Hno).
+      exists i, ri, m. split; [lia|]. repeat (split; [assumption|]).
+      intros i' ri' Hi' Hni'. destruct (Nat.eq_dec i' k) as [->|Hne].
+      - rewrite Ek in Hni'. injection Hni' as <-. exact Hnb.
+      - apply (Hno i' ri'); [lia|exact Hni']. }
+    unfold rstep in E. destruct (Bool.eqb (se_client (h_ev rk)) X) eqn:EX.
+    + apply Bool.eqb_prop in EX.
+      destruct (se_ev (h_ev rk)) eqn:Eev;
+        try (apply (Hold u cs E Ha); intros [Hb _]; congruence); [|discriminate].
+      destruct (act_of H (f k) m) as [a0|] eqn:Eact; [|apply (Hold u cs E Ha); intros [Hb _]; congruence].
+      destruct (replay_begin_c_step _ _ _ _ _ E) as [Eb|[->|(u0 & cs0 & Eb & -> & _)]].
+      * apply (Hold u cs Eb Ha). intros [Hb _]. congruence.
+      * destruct Ha as [<-|[]]. exists k, rk, m. split; [lia|]. repeat (split; [assumption|]).
+        intros i' ri' Hi'. lia.
+      * destruct Ha as [<-|Ha].
+        -- exists k, rk, m. split; [lia|]. repeat (split; [assumption|]). intros i' ri' Hi'. lia.
+        -- apply (Hold u0 cs0 Eb Ha). intros [Hb _]. congruence.
+    + apply (Hold u cs E Ha). intros [_ Hs]. rewrite Hs, Bool.eqb_reflx in EX. discriminate.
+  - destruct (IH u cs E a Ha) as (i & ri & m & Li & Hi & Hev & Hs & Hact & Hno).
+    exists i, ri, m. split; [lia|]. repeat (split; [assumption|]).
+    intros i' ri' Hi' Hni'. destruct (Nat.eq_dec i' k) as [->|Hne]; [congruence|].
+    apply (Hno i' ri'); [lia|exact Hni'].
+Qed.
+
+(** * 7. Concrete runs (evaluated inside Coq): the refutation of the literal target, non-vacuity *)
+
+(** role machines as in Properties/SimExamples.v: state 0 moves to state 1 on [ev] with probability 1,
+    state 1 carries the action; constant distributions *)
+Definition bx_cd (bits : N) : dist := mkdist (Uniform bits bits) 0 0.
+Definition bx_d0 := bx_cd 0.                        (* 0.0 *)
+Definition bx_d1 := bx_cd 4607182418800017408.      (* 1.0 us *)
+Definition bx_d2 := bx_cd 4611686018427387904.      (* 2.0 *)
+Definition bx_d5 := bx_cd 4617315517961601024.      (* 5.0 *)
+Definition bx_d10 := bx_cd 4621819117588971520.     (* 10.0 *)
+Definition bx_d50 := bx_cd 4632233691727265792.     (* 50.0 *)
+Definition bx_d100 := bx_cd 4636737291354636288.    (* 100.0 *)
+Definition bx_d200 := bx_cd 4641240890982006784.    (* 200.0 *)
+Definition bx_on (ev : event) (target : N) : list (option (list trans)) :=
+  map (fun i => if Nat.eqb i (event_idx ev) then Some [(target, 1065353216)] else None) (seq 0 13).
+Definition bx_none13 : list (option (list trans)) := map (fun _ => None) (seq 0 13).
+Definition bx_two (ev : event) (a : action) : machine :=
+  mkmachine 18446744073709551615 0 18446744073709551615 0
+    [mkstate None None None (bx_on ev 1); mkstate (Some a) None None bx_none13].
+Definition bx_mk (ms : list machine) : cfg := mkcfg ms 4607182418800017408 4607182418800017408 stdclock.
+Definition bx_server : cfg := mkcfg [] 0 0 stdclock.
+Definition bx_tape : tape := fun _ => 0.
+Definition bx_args : simargs := mksimargs 0 0 false false false.
+(** the client sends at 0 and at 50 us; network delay 1 us *)
+Definition bx_sq : simq := parse_trace [(0, true); (50000, true)]%Z 1000.
+Definition bx_fw0 : fstate := mkfstate 0 0 [] [] 0 0 0 0 false None 0 0 [].
+Definition bx_fw (c : cfg) (p : nat) : fstate := match fnew_at c bx_tape 0 p with Ok x => x | _ => bx_fw0 end.
+Definition bx_net : netb := match netb_new 1000 None (sq_pps bx_sq) with Ok n => n | _ => mknetb 0 0 [] 0 [] [] 0 0 end.
+Definition bx_st0 (c : cfg) : sim :=
+  mksim bx_sq (new_side c (bx_fw c 0)) (new_side bx_server (bx_fw bx_server (Framework.pos (bx_fw c 0))))
+        bx_net (Framework.pos (bx_fw bx_server (Framework.pos (bx_fw c 0)))).
+Definition bx_hist (c : cfg) : list hrec :=
+  match sim_loop_h 200 c bx_server bx_tape bx_args (bx_st0 c) 0 [] 0 with Ok h => h | _ => [] end.
+
+Lemma bx_init : forall c cfw sfw,
+  fnew_at c bx_tape 0 0 = Ok cfw -> fnew_at bx_server bx_tape 0 (Framework.pos cfw) = Ok sfw ->
+  sim_init c bx_server bx_tape bx_sq 1000 None (bx_st0 c) 0.
+Proof.
+  intros c cfw sfw E1 E2. exists cfw, sfw, bx_net.
+  split; [vm_compute; reflexivity|]. split; [exact E1|]. split; [exact E2|]. split; [vm_compute; reflexivity|].
+  unfold bx_st0, bx_fw. rewrite E1. rewrite E2. reflexivity.
+Qed.
+
+(** ** COUNTEREXAMPLE to the target as first stated (replay with [replay_begin]).
+    Client machines: 0 blocks (fail-closed) for 100 us, 1 us after the first NormalSent; 1 issues, on the
+    BlockingBegin, a REPLACING BlockOutgoing of ZERO duration due 5 us later. At 6 us that action fires:
+    the expiry of the client becomes 6 us = now, so pick_next reports BlockingEnd(6 us) at once, BEFORE
+    the queued BlockingBegin(6 us) of machine 1; afterwards the client is not blocking and its second
+    packet leaves at 50 us without the bypass flag (record 8). The literal replay reads
+    Begin, End, Begin(replace, zero duration) and restarts a blocking "until 6 us, bypass not allowed"
+    at the late BlockingBegin which nothing ends; so at record 8 it is [Some (6000, false)]: (1) and (2)
+    fail, no BlockingBegin follows (3), and the run goes on to a later instant (4). *)
+Definition cxz_cfg : cfg :=
+  bx_mk [bx_two NormalSent (BlockOutgoing false false bx_d1 bx_d100 None);
+         bx_two BlockingBegin (BlockOutgoing false true bx_d5 bx_d0 None)].
+Definition cxz_H : list hrec := Eval vm_compute in bx_hist cxz_cfg.
+
+Theorem stated_target_refuted :
+  sim_init cxz_cfg bx_server bx_tape bx_sq 1000 None (bx_st0 cxz_cfg) 0 /\
+  sim_loop_h 200 cxz_cfg bx_server bx_tape bx_args (bx_st0 cxz_cfg) 0 [] 0 = Ok cxz_H /\
+  sim_advanced 200 cxz_cfg bx_server bx_tape bx_sq 1000 None bx_args = Ok (map h_ev cxz_H) /\
+  map (fun r => (se_ev (h_ev r), se_time (h_ev r), se_bypass (h_ev r), h_acts r)) cxz_H =
+    [(TENormalSent, 0, false, [TBlockOutgoing 0 1000 100000 false false]);
+     (TETunnelSent, 0, false, []); (TETunnelRecv, 1000, false, []); (TENormalRecv, 1000, false, []);
+     (TEBlockingBegin 0, 1000, false, [TBlockOutgoing 1 5000 0 false true]);
+     (TEBlockingEnd, 6000, false, []); (TEBlockingBegin 1, 6000, false, []);
+     (TENormalSent, 50000, false, []); (TETunnelSent, 50000, false, []); (TETunnelRecv, 51000, false, [])]%Z /\
+  (* whatever cause assignment is used, the literal claim fails at the release recorded as #8 *)
+  forall f : nat -> nat,
+    (forall k rk m, nth_error cxz_H k = Some rk ->
+       (se_ev (h_ev rk) = TEPaddingSent m \/ se_ev (h_ev rk) = TEBlockingBegin m) ->
+       caused_by cxz_H k rk m (f k)) ->
+    exists rk, nth_error cxz_H 8 = Some rk /\ se_ev (h_ev rk) = TETunnelSent /\
+      replayS true f cxz_H 8 = Some (6000%Z, false) /\ replayX true f cxz_H 8 = None /\
+      ~ claim replay_begin f cxz_H 8 rk.
+Proof.
+  split.
+  { eapply bx_init; vm_compute; reflexivity. }
+  split; [vm_compute; reflexivity|]. split; [vm_compute; reflexivity|]. split; [vm_compute; reflexivity|].
+  intros f Hf.
+  assert (E4 : f 4%nat = 0%nat).
+  { destruct (Hf 4%nat _ 0 eq_refl (or_intror eq_refl)) as (rj & a & L & Hj & _ & Ha & _).
+    destruct (f 4%nat) as [|[|[|[|n]]]]; [reflexivity| | | |lia];
+      vm_compute in Hj; injection Hj as <-; destruct Ha. }
+  assert (E6 : f 6%nat = 4%nat).
+  { destruct (Hf 6%nat _ 1 eq_refl (or_intror eq_refl)) as (rj & a & L & Hj & _ & Ha & Hm & _).
+    destruct (f 6%nat) as [|[|[|[|[|[|n]]]]]]; [| | | |reflexivity| |lia];
+      vm_compute in Hj; injection Hj as <-; try (destruct Ha; fail).
+    destruct Ha as [<-|[]]. discriminate Hm. }
+  set (g := fun i : nat => match i with 4%nat => 0%nat | 6%nat => 4%nat | _ => 0%nat end).
+  assert (Efg : forall i ri m, (i < 8)%nat -> nth_error cxz_H i = Some ri ->
+            se_ev (h_ev ri) = TEBlockingBegin m -> f i = g i).
+  { intros i ri m Li Hi Hev.
+    do 8 (destruct i as [|i]; [try (vm_compute in Hi; injection Hi as <-; discriminate Hev); assumption|]). lia. }
+  assert (ES : replayS true f cxz_H 8 = Some (6000%Z, false)).
+  { unfold replayS. rewrite (replayG_ext replay_begin true f g cxz_H 8 Efg). vm_compute. reflexivity. }
+  assert (EX : replayX true f cxz_H 8 = None).
+  { unfold replayX. rewrite (replayG_ext replay_begin_r true f g cxz_H 8 Efg). vm_compute. reflexivity. }
+  eexists. split; [reflexivity|]. split; [reflexivity|]. split; [exact ES|]. split; [exact EX|].
+  unfold claim. cbv zeta. cbn [h_ev se_client se_time se_bypass]. fold replayS. rewrite ES.
+  intros [C|[(u & C & _)|[(j & rj & m & Lj & Hj & Hev & _)|C]]].
+  - discriminate C.
+  - discriminate C.
+  - do 9 (destruct j as [|j]; [lia|]).
+    destruct j as [|j]; [vm_compute in Hj; injection Hj as <-; discriminate Hev|].
+    destruct j; discriminate Hj.
+  - destruct (C 9%nat _ ltac:(lia) eq_refl) as [Ht _]. discriminate Ht.
+Qed.
+
+(** ** Non-vacuity, clause (2) with two contributors.
+    Client machines: 0 a bypassable blocker (100 us, 1 us after the first NormalSent); 1 an extending
+    bypassable blocker (200 us, not replacing, 2 us after the BlockingBegin); 2 a bypass padder (5 us
+    after the BlockingBegin). The padding's TunnelSent (#7, at 6 us) leaves the blocking client: the
+    replay there is [Some (203000, true)] with the two contributing actions. *)
+Definition ex2_cfg : cfg :=
+  bx_mk [bx_two NormalSent (BlockOutgoing true false bx_d1 bx_d100 None);
+         bx_two BlockingBegin (BlockOutgoing true false bx_d2 bx_d200 None);
+         bx_two BlockingBegin (SendPadding true false bx_d5 None)].
+Definition ex2_H : list hrec := Eval vm_compute in bx_hist ex2_cfg.
+
+Example bypass_all_case2_two_contributors :
+  sim_init ex2_cfg bx_server bx_tape bx_sq 1000 None (bx_st0 ex2_cfg) 0 /\
+  sim_loop_h 200 ex2_cfg bx_server bx_tape bx_args (bx_st0 ex2_cfg) 0 [] 0 = Ok ex2_H /\
+  sim_advanced 200 ex2_cfg bx_server bx_tape bx_sq 1000 None bx_args = Ok (map h_ev ex2_H) /\
+  map (fun r => (se_ev (h_ev r), se_time (h_ev r), se_bypass (h_ev r), h_acts r)) (firstn 8 ex2_H) =
+    [(TENormalSent, 0, false, [TBlockOutgoing 0 1000 100000 true false]);
+     (TETunnelSent, 0, false, []); (TETunnelRecv, 1000, false, []); (TENormalRecv, 1000, false, []);
+     (TEBlockingBegin 0, 1000, true, [TBlockOutgoing 1 2000 200000 true false; TSendPadding 2 5000 true false]);
+     (TEBlockingBegin 1, 3000, true, []); (TEPaddingSent 2, 6000, true, []);
+     (TETunnelSent, 6000, true, [])]%Z /\
+  forall f : nat -> nat,
+    (forall k rk m, nth_error ex2_H k = Some rk ->
+       (se_ev (h_ev rk) = TEPaddingSent m \/ se_ev (h_ev rk) = TEBlockingBegin m) ->
+       caused_by ex2_H k rk m (f k)) ->
+    exists rk, nth_error ex2_H 7 = Some rk /\ se_ev (h_ev rk) = TETunnelSent /\ se_client (h_ev rk) = true /\
+      se_pad (h_ev rk) = true /\ se_bypass (h_ev rk) = true /\
+      replayX true f ex2_H 7 = Some (203000%Z, true) /\
+      replayC true f ex2_H 7 = Some (203000%Z, [TBlockOutgoing 1 2000 200000 true false;
+                                                 TBlockOutgoing 0 1000 100000 true false]).
+Proof.
+  split.
+  { eapply bx_init; vm_compute; reflexivity. }
+  split; [vm_compute; reflexivity|]. split; [vm_compute; reflexivity|]. split; [vm_compute; reflexivity|].
+  intros f Hf.
+  assert (E4 : f 4%nat = 0%nat).
+  { destruct (Hf 4%nat _ 0 eq_refl (or_intror eq_refl)) as (rj & a & L & Hj & _ & Ha & _).
+    destruct (f 4%nat) as [|[|[|[|n]]]]; [reflexivity| | | |lia];
+      vm_compute in Hj; injection Hj as <-; destruct Ha. }
+  assert (E5 : f 5%nat = 4%nat).
+  { destruct (Hf 5%nat _ 1 eq_refl (or_intror eq_refl)) as (rj & a & L & Hj & _ & Ha & Hm & _).
+    destruct (f 5%nat) as [|[|[|[|[|n]]]]]; [| | | |reflexivity|lia];
+      vm_compute in Hj; injection Hj as <-; try (destruct Ha; fail).
+    destruct Ha as [<-|[]]. discriminate Hm. }
+  set (g := fun i : nat => match i with 4%nat => 0%nat | 5%nat => 4%nat | _ => 0%nat end).
+  assert (Efg : forall i ri m, (i < 7)%nat -> nth_error ex2_H i = Some ri ->
+            se_ev (h_ev ri) = TEBlockingBegin m -> f i = g i).
+  { intros i ri m Li Hi Hev.
+    do 7 (destruct i as [|i]; [try (vm_compute in Hi; injection Hi as <-; discriminate Hev); assumption|]). lia. }
+  eexists. split; [reflexivity|]. repeat (split; [reflexivity|]). split.
+  - unfold replayX. rewrite (replayG_ext replay_begin_r true f g ex2_H 7 Efg). vm_compute. reflexivity.
+  - unfold replayC. rewrite (replayG_ext replay_begin_c true f g ex2_H 7 Efg). vm_compute. reflexivity.
+Qed.
+
+(** ** Non-vacuity, clause (3): a release judged one step ahead.
+    Client machines: 0 a fail-closed blocker (100 us); 1 a bypass padder (5 us after the
+    BlockingBegin): its TunnelSent is held; 2 a REPLACING bypassable blocker (50 us, 10 us after the
+    BlockingBegin). At 11 us the replacing block fires, the held padding leaves at once (#6), and the
+    BlockingBegin of machine 2 is reported after it (#7, same instant): at #6 the replay of the reports is
+    still [Some (101000, false)], including #7 it is [Some (61000, true)]. *)
+Definition ex3_cfg : cfg :=
+  bx_mk [bx_two NormalSent (BlockOutgoing false false bx_d1 bx_d100 None);
+         bx_two BlockingBegin (SendPadding true false bx_d5 None);
+         bx_two BlockingBegin (BlockOutgoing true true bx_d10 bx_d50 None)].
+Definition ex3_H : list hrec := Eval vm_compute in bx_hist ex3_cfg.
+
+Example bypass_all_case3_one_step_ahead :
+  sim_init ex3_cfg bx_server bx_tape bx_sq 1000 None (bx_st0 ex3_cfg) 0 /\
+  sim_loop_h 200 ex3_cfg bx_server bx_tape bx_args (bx_st0 ex3_cfg) 0 [] 0 = Ok ex3_H /\
+  sim_advanced 200 ex3_cfg bx_server bx_tape bx_sq 1000 None bx_args = Ok (map h_ev ex3_H) /\
+  map (fun r => (se_ev (h_ev r), se_time (h_ev r), se_bypass (h_ev r), h_acts r)) (firstn 8 ex3_H) =
+    [(TENormalSent, 0, false, [TBlockOutgoing 0 1000 100000 false false]);
+     (TETunnelSent, 0, false, []); (TETunnelRecv, 1000, false, []); (TENormalRecv, 1000, false, []);
+     (TEBlockingBegin 0, 1000, false, [TSendPadding 1 5000 true false; TBlockOutgoing 2 10000 50000 true true]);
+     (TEPaddingSent 1, 6000, true, []); (TETunnelSent, 11000, true, []);
+     (TEBlockingBegin 2, 11000, true, [])]%Z /\
+  forall f : nat -> nat,
+    (forall k rk m, nth_error ex3_H k = Some rk ->
+       (se_ev (h_ev rk) = TEPaddingSent m \/ se_ev (h_ev rk) = TEBlockingBegin m) ->
+       caused_by ex3_H k rk m (f k)) ->
+    exists rk, nth_error ex3_H 6 = Some rk /\ se_ev (h_ev rk) = TETunnelSent /\ se_client (h_ev rk) = true /\
+      se_bypass (h_ev rk) = true /\
+      replayX true f ex3_H 6 = Some (101000%Z, false) /\       (* (1) and (2) do not apply *)
+      replayX true f ex3_H 8 = Some (61000%Z, true).           (* (3) with j = 7 *)
+Proof.
+  split.
+  { eapply bx_init; vm_compute; reflexivity. }
+  split; [vm_compute; reflexivity|]. split; [vm_compute; reflexivity|]. split; [vm_compute; reflexivity|].
+  intros f Hf.
+  assert (E4 : f 4%nat = 0%nat).
+  { destruct (Hf 4%nat _ 0 eq_refl (or_intror eq_refl)) as (rj & a & L & Hj & _ & Ha & _).
+    destruct (f 4%nat) as [|[|[|[|n]]]]; [reflexivity| | | |lia];
+      vm_compute in Hj; injection Hj as <-; destruct Ha. }
+  assert (E7 : f 7%nat = 4%nat).
+  { destruct (Hf 7%nat _ 2 eq_refl (or_intror eq_refl)) as (rj & a & L & Hj & _ & Ha & Hm & _).
+    destruct (f 7%nat) as [|[|[|[|[|[|[|n]]]]]]]; [| | | |reflexivity| | |lia];
+      vm_compute in Hj; injection Hj as <-; try (destruct Ha; fail).
+    destruct Ha as [<-|[]]. discriminate Hm. }
+  set (g := fun i : nat => match i with 4%nat => 0%nat | 7%nat => 4%nat | _ => 0%nat end).
+  assert (Efg : forall i ri m, (i < 8)%nat -> nth_error ex3_H i = Some ri ->
+            se_ev (h_ev ri) = TEBlockingBegin m -> f i = g i).
+  { intros i ri m Li Hi Hev.
+    do 8 (destruct i as [|i]; [try (vm_compute in Hi; injection Hi as <-; discriminate Hev); assumption|]). lia. }
+  eexists. split; [reflexivity|]. repeat (split; [reflexivity|]). split.
+  - unfold replayX. rewrite (replayG_ext replay_begin_r true f g ex3_H 6); [vm_compute; reflexivity|].
+    intros i ri m Li. apply Efg. lia.
+  - unfold replayX. rewrite (replayG_ext replay_begin_r true f g ex3_H 8 Efg). vm_compute. reflexivity.
+Qed.
+
+Print Assumptions bypass_all_replay_partial.
+Print Assumptions bypass_all_replay_history_partial.
+Print Assumptions bypass_all_replay_stated_no_zero_replace.
+Print Assumptions replay_flag_true_all.
+Print Assumptions replayC_sound.
+Print Assumptions stated_target_refuted.
